@@ -264,8 +264,12 @@ class Run(object):
                 serial = len(self.cmds) + 1
                 text = "GETINFO k%d" % serial
                 if e["k"] == "cb":
-                    def linecb(line, serial=serial):
+                    ret = e.get("ret", "none")
+
+                    def linecb(line, serial=serial, ret=ret):
                         self.cbnow.append([serial, self.tokmap.get(line, -9)])
+                        # what the application's callback returns is its own business and must not matter
+                        return {"none": None, "one": 1, "zero": 0, "defer": defer.Deferred(), "text": "RECV"}[ret]
                     p.queue_command(text, linecb)
                 else:
                     self.next_kind = e["k"]
